@@ -204,6 +204,22 @@ def run(ctx):
                     violations.append({"signature": "oracle:" + kind, "what": o,
                                        "replay": {"kind": "validation", "schema": common.jval(schema), "config": common.jval(cfg),
                                                   "documents": [common.jval(d) for d in docs[:j + 1]], "tree": kind}})
+            if g.r.random() < 0.5:
+                # reading the rendered errors (any number of times) must leave the recorded errors and the trees in agreement
+                try:
+                    v.errors
+                    if g.r.random() < 0.3:
+                        v.errors
+                except Exception as ex:
+                    dist["errors_raised_" + type(ex).__name__] += 1
+                else:
+                    dist["reread_after_errors"] += 1
+                    for kind, tree in (("document", v.document_error_tree), ("schema", v.schema_error_tree)):
+                        o = tree_oracle(v._errors, tree, kind)
+                        if o:
+                            violations.append({"signature": "oracle-after-errors:" + kind, "what": "after reading Validator.errors: " + o,
+                                               "replay": {"kind": "validation", "schema": common.jval(schema), "config": common.jval(cfg),
+                                                          "documents": [common.jval(d) for d in docs[:j + 1]], "tree": kind, "read_errors": True}})
             if ok != (len(v.document_error_tree.errors) == 0 and not v.document_error_tree.descendants):
                 violations.append({"signature": "oracle:empty-iff-valid", "what": "document tree empty != validation succeeded",
                                    "replay": {"kind": "validation", "schema": common.jval(schema), "config": common.jval(cfg),
@@ -215,7 +231,7 @@ def run(ctx):
             "disagreements_checked": len(forests) * 2, "samples": samples, "distribution": dict(dist),
             "rule": "random error forests (depth<=3, group/logic/leaf codes, str/int keys, '__require_all__' schema paths) fed to the real "
                     "DocumentErrorTree/SchemaErrorTree and to the extracted model, compared node by node as multisets; plus the two trees of real "
-                    "validations (schema-directed documents, 1-3 consecutive documents per validator) checked by the retrievability oracle. "
+                    "validations (schema-directed documents, 1-3 consecutive documents per validator) checked by the retrievability oracle, again after reading Validator.errors. "
                     "Non-trivial = distinct forests + validations that produced at least one error."}
 
 
